@@ -46,14 +46,36 @@ def init_post(C):
         s.stoptime == runspec_of(d, 'stoptime', base('stoptime')),
         s.dt == runspec_of(d, 'dt', base('dt')),
         s.model == m, s.sd_simulation.is_null, s.name == C.name,
+        # the points table of the scenario's model, as a WHOLE: the graphical functions the scenario names carry the scenario's
+        # points, every other one is exactly what the model had (found wrong on the pinned tree: the table was replaced)
+        Implies(Not(m.is_null), FA('str', lambda k: If(And(d.has('points'), d['points'].has(k)),
+                                                       And(m.points.has(k), m.points.raw(k) == d['points'].raw(k)),
+                                                       And(m.points.has(k) == C.old.model.points.has(k),
+                                                           m.points.raw(k) == C.old.model.points.raw(k))))),
         # only the new scenario object is written (and the points of ITS model when it brings points)
         only_obj(C, ['SdScenario.constants', 'SdScenario.points', 'SdScenario.starttime', 'SdScenario.stoptime', 'SdScenario.dt',
-                     'SdScenario.model', 'SdScenario.sd_simulation'], C.self))
+                     'SdScenario.model', 'SdScenario.sd_simulation'], C.self),
+        # ... and no other model's points table
+        only_obj(C, ['SdModel.points'], C.model))
+
+
+def init_points_inv(C):
+    """loop over the scenario's points: the names already visited carry the scenario's points in the model's table, all
+    other names are as the model had them"""
+    s, d, m = C.self, C.dictionary, C.model
+    src = d['points']
+    return And(src.wf, d.has('points'), Not(m.is_null), s.points.z == src.z, s.model == m,
+               only_obj(C, ['SdScenario.points'], C.self), only_obj(C, ['SdModel.points'], C.model),
+               FA('str', lambda k: If(And(src.has(k), d_pos(CONSTS, src.z)[k] < C.k),
+                                      And(m.points.has(k), m.points.raw(k) == src.raw(k)),
+                                      And(m.points.has(k) == C.old.model.points.has(k), m.points.raw(k) == C.old.model.points.raw(k)))))
 
 
 contract('SdScenario.__init__', file=F_SC, src_name='SimulationScenario.__init__', props=['C07', 'C06'],
          params=dict(self=SC, dictionary=SETTINGS, name=STR, model=TRef('SdModel'), scenario_manager_name=STR),
-         ensures=init_post,
+         # the model handed to a scenario is its own clone: its points table is not the dictionary's (call sites: add_scenarios)
+         requires=lambda C: Or(C.model.is_null, Not(C.dictionary.has('points')), C.model.points.oid != C.dictionary['points'].oid),
+         ensures=init_post, loops={0: init_points_inv},
          modifies=['SdScenario.dictionary', 'SdScenario.scenario_manager', 'SdScenario.model', 'SdScenario.sd_simulation',
                    'SdScenario.stoptime', 'SdScenario.starttime', 'SdScenario.dt', 'SdScenario.constants', 'SdScenario.points',
                    'SdScenario.name', 'SdScenario.result', 'SdModel.points'])
@@ -245,7 +267,8 @@ SMS = TRef('ScenarioManagerSd')
 contract('ScenarioManagerSd.get_cloned_model', trusted=True, props=['C06', 'C07'], allocates=True,
          note='(structural obligations in c06_clone) a new Model, or None for None',
          params=dict(self=SMS, model=TRef('SdModel')), returns=TRef('SdModel'),
-         ensures=lambda C: Implies(Not(C.result.is_null), C.fresh(C.result)))
+         # ... whose points table is a dictionary of its own (`new_mod.points = copy.deepcopy(model.points)`)
+         ensures=lambda C: Implies(Not(C.result.is_null), And(C.fresh(C.result), C.fresh_oid(C.result.points.oid))))
 contract('ScenarioManagerSd.instantiate_model', trusted=True, props=['C06', 'C07'], params=dict(self=SMS),
          note='(re)compiles file based models; for registered models applies constants/points of every scenario to its own clone')
 
